@@ -78,6 +78,8 @@ UNITS = [
     ("texttag", "<%text>\n% raw ${x}\n</%text>\n"), ("loop", "% for i{N} in range(2):\n${i{N}}\n% endfor\n"),
     ("calldef", '<%def name="c{N}()">\nx\n</%def>\n${c{N}()}\n'), ("modblock", "<%!\n    m{N} = 1\n\n    m{N}b = 2\n%>\n"),
     ("formfeed", "page\x0cbreak\n"), ("unicode-linesep", "a\u2028b\x85c\x0bd\n"),
+    # enough constructs for a generated module of more than 100 lines
+    ("bulk", "".join("${'e%d'} and ${%d}\n" % (i, i) for i in range(40))),
 ]
 PY_BEARING = {"block", "def", "multiexpr", "control", "loop", "calldef", "modblock"}
 
@@ -147,7 +149,7 @@ def build(data):
         kind, txt = g.pick(UNITS)
         prefix.append([kind, txt.replace("{N}", str(i))])
     return {"prefix": prefix, "shape": g.pick(["single", "include", "inherit", "nsdef", "chain", "single", "include-deep", "ccall-body"]),
-            "path": g.pick(["put_string", "files", "moddir", "moddir-reload", "moddir-relocated", "moddir-edited", "lookup-files"]), "k": g.int(0, 2),
+            "path": g.pick(["put_string", "files", "moddir", "moddir-reload", "moddir-relocated", "moddir-edited", "lookup-files"]), "k": g.int(0, 2), "prefail": g.pick([0, 0, 1, 2]),
             "outer_pad": g.int(0, 4), "nodf": g.int(0, 3) == 3}
 
 
@@ -293,7 +295,11 @@ def check_traceback(case, ev=None):
             lk.get_template(entry).render_unicode(**ctx)
         except Boom as e:
             tb = e.__traceback__
-            rt = mexc.RichTraceback(error=e, traceback=tb)
+            try:
+                rt = mexc.RichTraceback(error=e, traceback=tb)
+            except Exception as e2:  # noqa: BLE001
+                raise Failure(case, "RichTraceback(error=, traceback=) of the planted %s raised %s: %s\n%s" % (rkind, type(e2).__name__, e2, shown),
+                              "richtraceback-raised:" + type(e2).__name__)
             raw = traceback.extract_tb(tb)
             try:
                 txt = mexc.text_error_template().render_unicode(error=e, traceback=tb)
@@ -476,6 +482,22 @@ def check_warning(case, ev=None):
         err = None
         with warnings.catch_warnings(record=True) as rec:
             warnings.simplefilter(action)
+            if subject.get("prefail") and path in ("put_string", "files", "lookup-files"):
+                # in the same process, just before: an earlier version of this template whose module-level code raises (so it
+                # is never constructed), or that does not compile; then it is repaired.  What the failed construction left
+                # behind must not touch the warnings of the good one.
+                broken = ['<%!\n    raise ValueError("module code of the broken version")\n%>\nbody\n', "line1\n${'unterminated\n"][subject["prefail"] % 2]
+                with open(fn, "wb") as fh:
+                    fh.write(broken.encode("utf-8"))
+                try:
+                    if path == "put_string":
+                        Template(broken, uri=uri, **XKW)
+                    else:
+                        go()
+                except Exception:  # noqa: BLE001 - the broken version fails, that is its purpose
+                    pass
+                with open(fn, "wb") as fh:
+                    fh.write(src.encode("utf-8"))
             try:
                 go()
             except (mexc.SyntaxException, mexc.CompileException) as e:
